@@ -353,6 +353,12 @@ def ite(cond: tuple, a: Any, b: Any) -> Any:
         return tuple(ite(cond, x, y) for x, y in zip(a, b))
     if a == b:
         return a
+    if isinstance(a, tuple) and isinstance(b, tuple) and a and b and \
+            isinstance(a[0], str) and isinstance(b[0], str) and a[0] in (
+            "true", "false", "lt", "le", "eq", "not", "and", "or") and \
+            b[0] in ("true", "false", "lt", "le", "eq", "not", "and", "or"):
+        # boolean values: (cond and a) or (not cond and b)
+        return c_or(c_and(cond, a), c_and(c_not(cond), b))
     raise Unsupported("cannot merge non-numeric values under a condition")
 
 
